@@ -4,6 +4,7 @@ package inst
 
 import (
 	"fmt"
+	"runtime"
 	"runtime/debug"
 	"strings"
 	"testing"
@@ -61,3 +62,39 @@ func RunBubble(t *testing.T, f func()) (verdict, detail string) {
 
 // BubbleSleep sleeps in virtual time (schedule perturbation inside a bubble).
 func BubbleSleep(d time.Duration) { time.Sleep(d) }
+
+// Stragglers must be called inside a bubble. It waits until every other goroutine of the bubble is durably blocked or
+// gone (synctest.Wait) and then counts the goroutines that were started by code of the given package ("created by
+// <pkg>" in their stack header) and still exist: at that point they are blocked on a channel or asleep at a hook site,
+// not merely on their way out. It returns the count and the stack of the first one.
+func Stragglers(pkg string) (int, string) {
+	synctest.Wait()
+	buf := make([]byte, 1<<20)
+	buf = buf[:runtime.Stack(buf, true)]
+	n, first := 0, ""
+	blocks := strings.Split(string(buf), "\n\n")
+	// the caller's header names its bubble: "goroutine 12 [running, synctest bubble 7]:"
+	mine := ""
+	if k := strings.Index(blocks[0], "synctest bubble "); k >= 0 {
+		mine = blocks[0][k:]
+		if e := strings.IndexAny(mine, "],:"); e >= 0 {
+			mine = mine[:e]
+		}
+		mine += "]"
+	}
+	if mine == "" {
+		return 0, ""
+	}
+	for i, g := range blocks {
+		if i == 0 || !strings.Contains(strings.SplitN(g, "\n", 2)[0], mine) {
+			continue // the caller itself; goroutines of other (earlier, abandoned) bubbles or outside any bubble
+		}
+		if strings.Contains(g, "created by "+pkg) {
+			n++
+			if first == "" {
+				first = g
+			}
+		}
+	}
+	return n, first
+}
